@@ -43,7 +43,8 @@ theorem loopBody_run (cx : Ctx) (env : Env) (d : Char) :
 
 /-- the whole loop: it falls through when every character passes, and returns `False` at the first that does not -/
 theorem loop_run (cx : Ctx) : ∀ (l : Str) (env : Env),
-    (forLoop (fun env v => assocSet env "thisCh" v) (fun env => execL cx env loopBody) (l.map (fun c => .py (.str [c]))) env).2
+    (forLoop (fun env v => assocSet env "thisCh" v) (fun env => execL cx env loopBody) (fun _ => true)
+      (l.map (fun c => .py (.str [c]))) env).2
       = if l.all okChar then .next else .ret (.py (.bool false))
   | [], env => by simp [forLoop]
   | d :: r, env => by
@@ -56,7 +57,7 @@ theorem loop_run (cx : Ctx) : ∀ (l : Str) (env : Env),
     by_cases hd : okChar d = true
     · simp only [hd, if_true] at h
       subst h
-      simp only [hd, Bool.true_and]
+      simp only [hd, Bool.true_and, if_true]
       exact ih env'
     · simp only [hd, Bool.false_eq_true, if_false] at h
       subst h
